@@ -30,8 +30,23 @@ def _pid(spec, prefix, fallback):
     return f"{prefix}{spec['n']}" if "n" in spec else f"{prefix}:{fallback}"
 
 
+def is_expr_condition(p):
+    return isinstance(p, str) and p.startswith(("eqopt", "eqds:"))
+
+
+def cond_spec(case, i):
+    """The (one, identity-stable) expression node of the i-th condition of a case spec, or None for a plain predicate."""
+    p = case["cases"][i][0]
+    if not is_expr_condition(p):
+        return None
+    return case.setdefault("_conds", {}).setdefault(str(i), cond_option(p))
+
+
 def cond_option(p):
-    """'eqopt:KEY' / 'eqopt!:KEY' (no default) -> the option the condition reads."""
+    """The expression a condition 'equals the value of ...' reads: 'eqopt:KEY' / 'eqopt!:KEY' (no default) an option,
+    'eqds:ID' a dataset."""
+    if p.startswith("eqds:"):
+        return {"k": "ds", "id": p.split(":", 1)[1]}
     required = p.startswith("eqopt!:")
     key = p.split(":", 1)[1]
     return {"k": "opt", "key": key} if required else {"k": "opt", "key": key, "dk": "const", "dv": "<no-such-value>"}
@@ -197,9 +212,9 @@ class Ref:
     def _case(self, s, o):
         d = self.eval(s["disp"], o)
         for i, (p, res) in enumerate(s["cases"]):
-            if isinstance(p, str) and p.startswith("eqopt"):
+            if is_expr_condition(p):
                 # the condition is an expression: "equals the value of option K" (evaluated under the same options)
-                t = self.eval(cond_option(p), o)
+                t = self.eval(cond_spec(s, i), o)
                 self._hit("pred", f"cp{s['n']}.{i}" if "n" in s else f"cp:{p}")
                 matched = canon(d) == canon(t)
             else:
@@ -207,6 +222,7 @@ class Ref:
                 matched = pred(p)(d)
             if matched:
                 self.unselected.extend(r2 for j, (_, r2) in enumerate(s["cases"]) if j != i)
+                self.unselected.extend(cond_spec(s, j) for j in range(i + 1, len(s["cases"])) if cond_spec(s, j) is not None)  # conditions never consulted
                 if s.get("default") is not None:
                     self.unselected.append(s["default"])
                 return self.eval(res, o)
@@ -421,9 +437,9 @@ class Ref:
             sub(spec.get("default"))
         elif k == "case":
             sub(spec["disp"])
-            for p_, b in spec["cases"]:
-                if isinstance(p_, str) and p_.startswith("eqopt"):
-                    sub(cond_option(p_))  # a condition that is itself an expression over the options
+            for i_, (p_, b) in enumerate(spec["cases"]):
+                if is_expr_condition(p_):
+                    sub(cond_spec(spec, i_))  # a condition that is itself an expression over the options
                 sub(b)
             sub(spec.get("default"))
         elif k == "coalesce":
@@ -570,7 +586,7 @@ def children(spec):
             out.append(spec["default"])
         return out
     if k == "case":
-        out = [spec["disp"]] + [b for _, b in spec["cases"]]
+        out = [spec["disp"]] + [b for _, b in spec["cases"]] + [c for c in (cond_spec(spec, i) for i in range(len(spec["cases"]))) if c is not None]
         if spec.get("default") is not None:
             out.append(spec["default"])
         return out
